@@ -80,7 +80,7 @@ package paillier
 
 //@ func (*Ciphertext).Mul
 //@   nopanic[C05]
-//@   modifies Ciphertext.c
+//@   modifies Ciphertext.c@ct
 //@   requires ct != nil && pkok(pk)
 //@   ensures result == ct
 
@@ -94,7 +94,7 @@ package paillier
 //@   modifies nothing
 //@   allocates
 //@   requires ct.c != nil
-//@   ensures result != nil
+//@   ensures result != nil && fresh(result)
 
 //@ func (*Ciphertext).WriteTo
 //@   nopanic[C05]
@@ -110,7 +110,7 @@ package paillier
 
 //@ func (*Ciphertext).UnmarshalBinary
 //@   nopanic[C05]
-//@   modifies Ciphertext.c
+//@   modifies Ciphertext.c@ct
 //@   requires ct != nil
 
 //@ func (*Ciphertext).Nat
